@@ -45,6 +45,8 @@ def centres_of(case):
             m, k = lattice_dims(n)
         if kind in ("square", "jitter_square"):
             g = np.array([(ox + i * s, oy + j * s) for i in range(m) for j in range(k)], dtype=float)
+        elif kind == "rect345":   # 3s x 4s rectangles: the diameter of every bounded region is exactly 5s
+            g = np.array([(ox + 3 * s * i, oy + 4 * s * j) for i in range(m) for j in range(k)], dtype=float)
         else:
             g = np.array([(ox + i * s * math.sqrt(3) / 2, oy + (j + 0.5 * (i % 2)) * s) for i in range(m) for j in range(k)], dtype=float)
         if kind.startswith("jitter"):
@@ -93,6 +95,8 @@ def canon_cycle(seq):
 def cut_off(case, diams):
     """max_distance of the case: default / infinite / tight (between two region diameters)"""
     md = case["md"]
+    if md == "exact5":
+        return 5.0 * case["spacing"]
     if md == "default":
         return 75.0
     if md == "inf":
@@ -166,10 +170,17 @@ def run_case(ck, case, reqs, pending, keep):
     diams = [diameter([tuple(vor.vertices[v]) for v in reg]) for reg in vor.regions if len(reg) and -1 not in reg]
     md = cut_off(case, diams)
     exp, margin = expected_regions(vor, md)
-    if margin < 1e-9:
+    used = sorted({v for reg in vor.regions if len(reg) and -1 not in reg for v in reg})
+    if case["md"] == "exact5":
+        # diameter == max_distance exactly: allowed only when Qhull's vertices are exact half-integers, so that
+        # np.linalg.norm((3s, 4s)) == 5s holds exactly in float as well as in the model
+        if not all(float(2 * c).is_integer() for v in used for c in vor.vertices[v]):
+            ck.count("rejected_inexact_qhull_vertices")
+            return
+        ck.count("diameter_exactly_at_cutoff")
+    elif margin < 1e-9:
         ck.count("rejected_near_cutoff")
         return
-    used = sorted({v for reg in vor.regions if len(reg) and -1 not in reg for v in reg})
     if any(near_tie(c) for v in used for c in vor.vertices[v]):
         ck.count("rejected_rounding_tie")
         return
@@ -179,6 +190,8 @@ def run_case(ck, case, reqs, pending, keep):
         R = [(dec_round3(x), dec_round3(y)) for x, y in P]
         if len(set(R)) != len(R):
             coincide = True
+            # a ridge shorter than the rounding grid has no length left: the cycle of distinct corner points
+            R = [q for i, q in enumerate(R) if q != R[i - 1]] if len(set(R)) > 1 else R[:1]
         exp_cycles.append(R)
     if not coincide and any(abs(exact_area(R)) < Fraction(1, 10 ** 7) for R in exp_cycles):
         ck.count("rejected_zero_area_region")
@@ -431,6 +444,9 @@ def gen_cases(ck):
                 k = 3
             case["m"], case["k"], case["n"] = m, k, m * k
         out.append(case)
+    for i in range(2 if ck.tier == "quick" else 8):
+        out.append({"type": "centres", "kind": "rect345", "seed": i, "n": 0, "m": int(ck.rng.integers(3, 8)), "k": int(ck.rng.integers(3, 8)),
+                    "spacing": [1.0, 2.0, 4.0, 0.5][i % 4], "ring": False, "md": "exact5", "ox": 0.0, "oy": 0.0})
     return out
 
 
@@ -438,7 +454,8 @@ def run(ck):
     ck.rule = ("centre sets of 6..300 points: uniformly random, jittered square / hexagonal lattices (jitter 2..30 % of the "
                "spacing), exactly square and exactly hexagonal m x k lattices, spacings 1..40, random offsets; with and "
                "without the ring of add_voronoi_centers; max_distance default (75), infinite, or tight (between two region "
-               "diameters so that 20/50/85 % of the bounded regions survive); plus direct calls of line_eq (sloped, exactly "
+               "diameters so that 20/50/85 % of the bounded regions survive), and 3s x 4s rectangular lattices with "
+               "max_distance = 5s exactly equal to every region's diameter; plus direct calls of line_eq (sloped, exactly "
                "vertical, vertical after rounding), get_vertex_number and get_enum on random sequences. Non-trivial = at "
                "least two regions survive the cut-off; distinct = distinct generator parameters")
     ck.assumptions = ["scipy.spatial.Voronoi (Qhull) is trusted: its vertices/regions/ridge lists are the model's input and the oracle's reference",
@@ -478,7 +495,7 @@ def run(ck):
         elif kind == "tess":
             compare_tess(ck, case, obs, resp)
         elif kind == "line_eq":
-            mys = [float(unrat(v)) for v in resp["ridge"]] if False else [float(unrat(p[1])) for p in resp["ridge"]]
+            mys = [float(unrat(p[1])) for p in resp["ridge"]]
             mxs = [float(unrat(p[0])) for p in resp["ridge"]]
             if obs["ys"] != mys or obs["x"] != mxs:
                 ck.disagree("line_eq", f"model x={mxs} y={mys} impl x={obs['x']} y={obs['ys']}", case)
